@@ -41,7 +41,7 @@ _SCHED_TRUST = ['interface contract (L): IResource.get_available_units is a pure
                 'structure facts assumed at the entry of the passes (established by calc and by the graph invariants, not re-proved here): links and children non-null, '
                 'rank decreasing along every waits-for edge (exists iff _check_loops accepts; K1), ids unique in the WBS (C05), Task.all_parents lists parent first then its ancestors, summary fields cleared by __prepare_tasks']
 _SCHED_B = ['ForwardScheduler.calc / BackwardScheduler.calc (composition of the passes over the roots, WBS.clone) - bounded stand-in only',
-            '_validate_graph_isolation, _check_loops, _check_loops_from_task, __check_no_end_dates_in_future, __prepare_tasks - bounded stand-in only',
+            '_check_loops, _check_loops_from_task (cycle detection incl. cycles through the hierarchy) - bounded stand-in only',
             'ResourceUsageReport.rows(filter) - bounded stand-in only']
 _SCHED_EXPL = ('contract-based deductive verification of the functions the property lives in: the four scheduling kernels (fill loops and availability searches of both schedulers), '
                '_ResourceUsage.reserve/reserved and ResourceUsageReport.reserved (sum-comprehensions proved equal to the ledger specification functions by induction), and the two recursive passes '
@@ -59,7 +59,7 @@ PROPS.update({
     'C06': P('other', _SCHED_EXPL + 'C06 clauses proved at pass level: frame (tasks already calculated, tasks of higher rank and tasks left uncalculated keep all fields; searches do not touch the ledger) and every task handled gets start/end/estimate/spent. '
              'Purity w.r.t. the input WBS, structural equality of the copy, repeatability and clock independence are decided by the bounded stand-in only.', _SCHED_B + ['WBS.clone'], _SCHED_TRUST, design_ref='8/C06'),
     'C07': P('other', _SCHED_EXPL + 'C07 clauses proved: start <= end for every task without user-fixed dates in its subtree (leaf, milestone, summary; both schedulers); summary start = earliest child start, end = latest child end, '
-             'estimate/spent = sums over the children. WBS.start/end over the roots: bounded stand-in.', _SCHED_B + ['WBS.start', 'WBS.end'], _SCHED_TRUST,
+             'estimate/spent = sums over the children; __prepare_tasks discards the user values on summaries; WBS.start / WBS.end = earliest start / latest end over the root tasks.', _SCHED_B, _SCHED_TRUST,
              ['tasks with user-fixed dates in their subtree are excluded from the start<=end clause (known findings A-19, user-fixed-end)'], design_ref='8/C07'),
     'C08': P('other', _SCHED_EXPL + 'C08 clauses proved at kernel level: the search returns the first day on/after the release day with free capacity, every skipped day is fully booked, start = midnight + 24h*share booked before; '
              'the fill loop leaves every day before the last work day full and end = midnight(last) + 24h*share booked up to the task. WBS order among independent tasks and independence with balancing off: bounded stand-in.',
@@ -68,14 +68,14 @@ PROPS.update({
              'kernels: latest day with free capacity, skipped days full, end/start encodings from the end of the day, days between first and last work day full.', _SCHED_B, _SCHED_TRUST, design_ref='8/C09'),
     'C14': P('other', _SCHED_EXPL + 'C14 clauses proved: every safety obligation of the kernels and passes (no None arithmetic/attribute, no division by zero, no max/min of an empty list, no negative estimate, no undeclared exception class), '
              'termination measures of all four bounded searches and of the recursion (rank). That calc answers RuntimeError for unschedulable inputs (cycle through the hierarchy, outside predecessor without dates, fixed end in the future) '
-             'is decided by the bounded stand-in only.', _SCHED_B, _SCHED_TRUST + ['A-stack'], design_ref='8/C14'),
+             'is proved for two of the diagnoses (_validate_graph_isolation: outside predecessor without dates; __check_no_end_dates_in_future: fixed end in the future - each raises exactly in that case); the cycle through the hierarchy and the composition in calc are decided by the bounded stand-in only.', _SCHED_B, _SCHED_TRUST + ['A-stack'], design_ref='8/C14'),
 })
 _GRAPH_TRUST = ['assumed contract of the built-in list (append/remove/in/index/clear; abstract list theory T1, validated against CPython lists in the thorough tier)',
                 'graph lemma axioms D1-D5, G1 (transcriptions of lemmas/Graph.lean, proved in Lean 4 + Mathlib; transcription trusted, validated on all relations over <= 4 nodes)',
                 'history induction (meta-argument): every public mutator preserves Inv on both exits, constructors establish it; closed by the encapsulation scan']
 _GRAPH_B = ['Task.children.setter, WBS.roots.setter, _ChildrenList.remove/insert/move/sort/reorder, WBS.remove/__remove/remove_all, _TaskList.remove_all, Task.__init__, WBS.__init__ - bounded stand-in only (random histories of public calls)',
             'closure helpers assumed by contract: Task.all_children = strict descendants, all_parents = strict ancestors below the hidden root, all_predecessors/all_successors = transitive closure, _has_id_intersection, '
-            '_check_no_links_to_ancestors, _attach - their bodies are covered by the bounded stand-in only']
+            '_check_no_links_to_ancestors - their bodies are covered by the bounded stand-in only (Task._attach, Task._detach and Task.__set_children are proved in their own units)']
 _GRAPH_EXPL = ('contract-based deductive verification of the core mutators: Task.parent.setter (incl. its re-entrant call through roots.append, checked against its own contract) and both dependency setters are symbolically '
                'executed from the real source; the shared invariant Inv (forest F1-F4, list objects distinct, ownership W1/W1r/WR, links symmetric M1, acyclic M2 via the Lean-proved lemma G1, no link along the hierarchy X1) is '
                'proved on the normal AND the exceptional exit for an arbitrary heap satisfying Inv - i.e. for every history - together with `rejected => heap unchanged` (C15), `rejected only for a stated reason / accepted only without one`, '
@@ -84,7 +84,7 @@ _GRAPH_EXPL = ('contract-based deductive verification of the core mutators: Task
 PROPS.update({
     'C01': P('other', _GRAPH_EXPL, _GRAPH_B, _GRAPH_TRUST, design_ref='8/C01'),
     'C05': P('other', _GRAPH_EXPL + 'C05: the id-clash test is an assumed contract (_has_id_intersection as a function of the pre-state); uniqueness itself, lookup by id and the depth-first listing are decided by the bounded stand-in.',
-             _GRAPH_B + ['WBS.__getitem__', 'WBS.tasks'], _GRAPH_TRUST, design_ref='8/C05'),
+             _GRAPH_B + ['WBS.tasks (depth-first listing)'], _GRAPH_TRUST + ['WBS.__getitem__ is proved to return a member with the id / raise exactly when there is none, given the listing of all_children'], design_ref='8/C05'),
     'C11': P('other', _GRAPH_EXPL + 'C11: W1 (owner constant along the hierarchy), W1r (a task reports WBS X only if it is reachable from X\'s hidden root) and WR proved for re-parenting incl. subtree adoption; release paths (remove, assignments) bounded.',
              _GRAPH_B, _GRAPH_TRUST, design_ref='8/C11'),
     'C15': P('other', _GRAPH_EXPL, _GRAPH_B, _GRAPH_TRUST, ['constructor atomicity is a known finding (A-12)'], design_ref='8/C15'),
@@ -94,8 +94,8 @@ PROPS.update({
     'C18': P('other', 'contract-based deductive verification of the query code: the nested function _ImmutableTaskList.__call__.search is symbolically executed from the real source (loop over the keyword items, eleven '
              'suffix tests, slices, dynamically typed comparisons) and proved to return True exactly if every filter holds under the longest-matching-suffix reading of the property - for all keyword strings (SMT string '
              'theory, opaque/reveal for the quantified invariant); __get_task_attribute is proved to return the value of every public attribute incl. the property-backed id, estimate, spent, parent_id and None when lacking. '
-             'Level `other`: the comprehension in __call__, bulk __setattr__ and remove_all are covered by the bounded stand-in only.',
-             ['_ImmutableTaskList.__call__ (list comprehension over search)', '_ImmutableTaskList.__setattr__', '_TaskList.remove_all', 'WBS.remove_all'],
+             'bulk __setattr__ is proved to set the attribute on exactly the listed tasks (plain attribute names). Level `other`: the comprehension in __call__ and remove_all are covered by the bounded stand-in only.',
+             ['_ImmutableTaskList.__call__ (list comprehension over search)', '_TaskList.remove_all', 'WBS.remove_all'],
              ['library contracts (L): rich comparisons, `in` and re.search on dynamically typed values are uninterpreted predicates', 'SMT string theory of z3/cvc5'], design_ref='8/C18'),
     'C20': P('other', 'contract-based deductive verification of utils.py with an abstract text theory (len, visible length, concatenation, spaces): colored_text has visible width max(len(text), width); '
              '_TextTableRow.repr has visible width sum(width_i + 2) plus the borders, for every number of columns (loop invariant) given that every cell fits its column. Level `other`: TextTable.text_repr '
